@@ -296,8 +296,17 @@ func converterNarrowingIsRangeChecked(c *core.Ctx) {
 		}
 		return true
 	}
+	// the As* helpers of package object (AsByte, AsInt, ...) turn a script value
+	// into a Go value for builtins and methods in the same way
+	var helpers []*ssa.Function
+	for _, fn := range repoFns(p, "object") {
+		if fn.Parent() == nil && fn.Signature.Recv() == nil && strings.HasPrefix(fn.Name(), "As") && fn.Signature.Params().Len() == 1 &&
+			core.IsNamed(fn.Signature.Params().At(0).Type(), pkgPath("object"), "Object") && fn.Signature.Results().Len() == 2 {
+			helpers = append(helpers, fn)
+		}
+	}
 	n := 0
-	for _, fn := range append(append([]*ssa.Function{}, to...), from...) {
+	for _, fn := range append(append(append([]*ssa.Function{}, to...), from...), helpers...) {
 		var lossy []*ssa.Convert
 		for _, b := range fn.Blocks {
 			for _, in := range b.Instrs {
@@ -1074,4 +1083,367 @@ func equalsAndHashKeyLookAtTheSameThing(c *core.Ctx) {
 		c.Pass("repo|hashkey-through-pointers", "", "no hashable type computes its HashKey through a pointer field")
 	}
 	c.Stat("hashkey_through_pointer_types", n)
+}
+
+// ---------------------------------------------------------------------------
+// handbackHelperRejectsTheUnassignable: what a TypeConverter produced reaches a
+// Go location (reflect.Set, Append, SetMapIndex, Call) through one helper that
+// converts between a type and its named variants.  That helper also says no:
+// it has an error result, tests reflect.Type.AssignableTo, and returns a
+// non-nil error on some path; and no caller drops that error.  Anything it let
+// through unchanged that is not assignable makes reflect panic (a proxy of
+// another struct type, a string for a non-empty interface, a nil pointer for a
+// struct value).
+func handbackHelperRejectsTheUnassignable(c *core.Ctx) {
+	p := c.P
+	n := 0
+	for _, fn := range repoFns(p, "object") {
+		if fn.Parent() != nil || !isConversionHelper(fn) || len(fn.Params) != 2 {
+			continue
+		}
+		if !core.IsNamed(fn.Params[0].Type(), "reflect", "Value") {
+			continue
+		}
+		n++
+		res := fn.Signature.Results()
+		hasErr := res.Len() == 2 && isErrorType(res.At(1).Type())
+		errReturned := false
+		if hasErr {
+			for _, b := range fn.Blocks {
+				for _, in := range b.Instrs {
+					if r, ok := in.(*ssa.Return); ok && len(r.Results) == 2 {
+						for _, o := range core.Origins(spilledResult(b, r.Results[1])) {
+							if k, isK := o.(*ssa.Const); !isK || !k.IsNil() {
+								errReturned = true
+							}
+						}
+					}
+				}
+			}
+		}
+		c.Check(hasErr && errReturned, core.SSAName(fn)+"|rejects-the-unassignable", p.Pos(fn.Pos()),
+			core.SSAName(fn)+" prepares converter results for a Go location"+ife(hasErr && errReturned, " and returns an error for a value that is not assignable to it", " but has no way to refuse: a value that is neither assignable nor convertible by name goes through unchanged and reflect panics on it (o.PIn = o.PA for fields of two struct types)"))
+		// callers look at the error
+		for _, g := range repoFns(p, "object") {
+			k := 0
+			for _, b := range g.Blocks {
+				for _, in := range b.Instrs {
+					call, ok := in.(*ssa.Call)
+					if !ok || call.Call.StaticCallee() != fn {
+						continue
+					}
+					k++
+					used := false
+					if refs := call.Referrers(); refs != nil {
+						for _, r := range *refs {
+							if ex, ok := r.(*ssa.Extract); ok && ex.Index == 1 && ex.Referrers() != nil && len(*ex.Referrers()) > 0 {
+								used = true
+							}
+							if _, ok := r.(*ssa.Return); ok {
+								used = true
+							}
+						}
+					}
+					if !hasErr {
+						continue
+					}
+					c.Check(used, core.SSAName(g)+"|looks-at-the-error-of-"+fn.Name()+"|"+sprintf("%d", k), p.Pos(call.Pos()),
+						core.SSAName(g)+" calls "+fn.Name()+ife(used, " and looks at its error", " and drops its error"))
+				}
+			}
+		}
+	}
+	if n == 0 {
+		core.Undecidedf("no conversion helper (reflect.Value, reflect.Type) found in package object")
+	}
+	c.Stat("handback_helpers", n)
+}
+
+// ---------------------------------------------------------------------------
+// reflectedResultsAreNilTestedAsValues: whether a result of a reflective call
+// is nil is asked of the reflect.Value (IsNil), not of the interface it is
+// boxed in.  reflect.Value.Interface() of a nil pointer of a concrete type is
+// a non-nil interface: compared with nil directly, a Go method that returns
+// (*MyErr)(nil) raises an error whose text is "<nil>".
+func reflectedResultsAreNilTestedAsValues(c *core.Ctx) {
+	p := c.P
+	n := 0
+	for _, fn := range repoFns(p, "object") {
+		calls := false
+		for _, b := range fn.Blocks {
+			for _, in := range b.Instrs {
+				if call, ok := in.(*ssa.Call); ok && isReflectCall(&call.Call, "Value", "Call") {
+					calls = true
+				}
+			}
+		}
+		if !calls {
+			continue
+		}
+		isNilTests := 0
+		for _, b := range fn.Blocks {
+			for _, in := range b.Instrs {
+				if call, ok := in.(*ssa.Call); ok && isReflectCall(&call.Call, "Value", "IsNil") {
+					isNilTests++
+				}
+			}
+		}
+		k := 0
+		for _, b := range fn.Blocks {
+			for _, in := range b.Instrs {
+				bo, ok := in.(*ssa.BinOp)
+				if !ok || (bo.Op != token.EQL && bo.Op != token.NEQ) {
+					continue
+				}
+				var other ssa.Value
+				switch {
+				case isNilValue(bo.Y):
+					other = bo.X
+				case isNilValue(bo.X):
+					other = bo.Y
+				default:
+					continue
+				}
+				call, ok := other.(*ssa.Call)
+				if !ok || !isReflectCall(&call.Call, "Value", "Interface") {
+					continue
+				}
+				k++
+				n++
+				c.Check(false, core.SSAName(fn)+"|nil-asked-of-the-reflect-value|"+sprintf("%d", k), p.Pos(bo.Pos()),
+					core.SSAName(fn)+" compares reflect.Value.Interface() of a result of a reflective call with nil: for a nil pointer of a concrete type the interface is not nil (a method returning (*MyErr)(nil) raises an error that prints as <nil>); the question is reflect.Value.IsNil")
+			}
+		}
+		if k == 0 {
+			c.Check(isNilTests > 0, core.SSAName(fn)+"|nil-asked-of-the-reflect-value", p.Pos(fn.Pos()),
+				core.SSAName(fn)+" calls a Go method by reflection and "+ife(isNilTests > 0, "asks reflect.Value.IsNil about its results", "never asks reflect.Value.IsNil about its results"))
+			n++
+		}
+	}
+	if n == 0 {
+		core.Undecidedf("no function of package object calls reflect.Value.Call")
+	}
+	c.Stat("reflective_callers_nil_tests", n)
+}
+
+// ---------------------------------------------------------------------------
+// floatLimitsRejectTwoToThe63: a float is converted to an int64 only when it
+// is below 2^63.  math.MaxInt64 is not representable as a float64 and rounds
+// up to exactly 2^63, so `f > math.MaxInt64` lets the float 2^63 through, and
+// int64(2^63) is MinInt64 on amd64.  The guard in front of such a conversion
+// has a comparison that rejects 2^63 itself: f >= c with c <= 2^63, or f > c
+// with c < 2^63.
+func floatLimitsRejectTwoToThe63(c *core.Ctx) {
+	p := c.P
+	two63 := new(big.Float).SetMantExp(big.NewFloat(1), 63)
+	n := 0
+	for _, fn := range repoFns(p, "object") {
+		for _, b := range fn.Blocks {
+			for _, in := range b.Instrs {
+				cv, ok := in.(*ssa.Convert)
+				if !ok {
+					continue
+				}
+				sb, ok1 := cv.X.Type().Underlying().(*types.Basic)
+				db, ok2 := cv.Type().Underlying().(*types.Basic)
+				if !ok1 || !ok2 || sb.Kind() != types.Float64 || db.Kind() != types.Int64 {
+					continue
+				}
+				if _, isK := cv.X.(*ssa.Const); isK {
+					continue
+				}
+				// only conversions that a range test guards at all (the others are C08-R15's and C15-R10's business)
+				hasUpper, rejects := false, false
+				for _, b2 := range fn.Blocks {
+					if len(b2.Instrs) == 0 || b2 == b || !b2.Dominates(b) {
+						continue
+					}
+					iff, ok := b2.Instrs[len(b2.Instrs)-1].(*ssa.If)
+					if !ok {
+						continue
+					}
+					bo, ok := iff.Cond.(*ssa.BinOp)
+					if !ok {
+						continue
+					}
+					op := bo.Op
+					v, k := bo.X, bo.Y
+					if _, isConst := v.(*ssa.Const); isConst {
+						v, k = bo.Y, bo.X
+						switch op {
+						case token.LSS:
+							op = token.GTR
+						case token.LEQ:
+							op = token.GEQ
+						case token.GTR:
+							op = token.LSS
+						case token.GEQ:
+							op = token.LEQ
+						}
+					}
+					kc, ok := k.(*ssa.Const)
+					if !ok || kc.Value == nil || (v != cv.X && !core.SameStorage(v, cv.X)) {
+						continue
+					}
+					f, _ := new(big.Float).SetString(kc.Value.ExactString())
+					if f == nil {
+						if r, ok2 := new(big.Rat).SetString(kc.Value.ExactString()); ok2 {
+							f = new(big.Float).SetRat(r)
+						}
+					}
+					if f == nil || f.Sign() <= 0 {
+						continue
+					}
+					// the constant as the float64 the comparison really uses
+					f64, _ := f.Float64()
+					fr := big.NewFloat(f64)
+					switch op {
+					case token.GEQ:
+						hasUpper = true
+						if fr.Cmp(two63) <= 0 {
+							rejects = true
+						}
+					case token.GTR:
+						hasUpper = true
+						if fr.Cmp(two63) < 0 {
+							rejects = true
+						}
+					}
+				}
+				if !hasUpper {
+					continue
+				}
+				n++
+				c.Check(rejects, core.SSAName(fn)+"|float-limit-rejects-2^63", p.Pos(cv.Pos()),
+					core.SSAName(fn)+" converts a float to int64 behind an upper limit"+ife(rejects, " that rejects 2^63", " that 2^63 itself passes (a limit written as math.MaxInt64 is 2^63 as a float, and `>` does not reject it): int64(2^63) is MinInt64, so the Go side receives -9223372036854775808 for 9223372036854775808.0"))
+			}
+		}
+	}
+	if n == 0 {
+		core.Undecidedf("no float-to-int64 conversion of package object is guarded by an upper limit")
+	}
+	c.Stat("guarded_float_to_int64", n)
+}
+
+// ---------------------------------------------------------------------------
+// attributesAreDiscoveredAsTheyAreAccessed: a proxy reads and writes a field
+// with reflect.Value.FieldByName on the struct it wraps, which panics when the
+// field is promoted through an embedded pointer that is nil.  The fields a Go
+// type offers as attributes are therefore the struct's own (NumField/Field),
+// not reflect.VisibleFields, which adds the promoted ones.
+func attributesAreDiscoveredAsTheyAreAccessed(c *core.Ctx) {
+	p := c.P
+	byName, visible := 0, ""
+	for _, fn := range repoFns(p, "object") {
+		for _, b := range fn.Blocks {
+			for _, in := range b.Instrs {
+				call, ok := in.(*ssa.Call)
+				if !ok {
+					continue
+				}
+				if isReflectCall(&call.Call, "Value", "FieldByName") {
+					byName++
+				}
+				if isReflectCall(&call.Call, "", "VisibleFields") {
+					visible = core.SSAName(fn) + " at " + p.Pos(call.Pos())
+				}
+			}
+		}
+	}
+	if byName == 0 {
+		core.Undecidedf("package object never calls reflect.Value.FieldByName")
+	}
+	c.Check(visible == "", "object|fields-discovered-without-promotion", "",
+		sprintf("package object accesses struct fields by name in %d places (reflect.Value.FieldByName panics on a field promoted through a nil embedded pointer)", byName)+ife(visible == "", "; it never enumerates fields with reflect.VisibleFields", "; "+visible+" enumerates them with reflect.VisibleFields, which includes promoted fields: rec.Rev with a nil *Audit embedded in rec is a reflect panic instead of a missing attribute"))
+	c.Stat("field_by_name_sites", byName)
+}
+
+// ---------------------------------------------------------------------------
+// immutableValuesAreNotWrittenByTheirMethods: a string, an int, a float, a bool
+// or a byte never changes.  Their methods neither store into a field of the
+// receiver nor into an element of a slice or array kept there: an operation
+// that returns a new value computed in place on storage the value keeps (a
+// cache of the string's code points, reversed in place by reversed()) changes
+// what the other operations see.
+func immutableValuesAreNotWrittenByTheirMethods(c *core.Ctx) {
+	p := c.P
+	op := p.Pkg("object")
+	n := 0
+	for _, name := range []string{"String", "Int", "Float", "Bool", "Byte", "NilType"} {
+		nt := core.MustType(op, name)
+		for _, m := range core.Methods(nt) {
+			sf := p.SSAFunc(m)
+			if sf == nil || sf.Blocks == nil || len(sf.Params) == 0 {
+				continue
+			}
+			n++
+			recv := ssa.Value(sf.Params[0])
+			bad := ""
+			for _, b := range sf.Blocks {
+				for _, in := range b.Instrs {
+					st, ok := in.(*ssa.Store)
+					if !ok {
+						continue
+					}
+					switch a := st.Addr.(type) {
+					case *ssa.FieldAddr:
+						if a.X == recv {
+							bad = "stores into the field " + fieldNameOf(nt, a.Field) + " at " + p.Pos(st.Pos())
+						}
+					case *ssa.IndexAddr:
+						// an element of something loaded from a receiver field, or returned by another method of the receiver
+						for _, o := range core.Origins(a.X) {
+							if u, ok := o.(*ssa.UnOp); ok {
+								if fa, ok := u.X.(*ssa.FieldAddr); ok && fa.X == recv {
+									bad = "writes an element of the receiver's " + fieldNameOf(nt, fa.Field) + " at " + p.Pos(st.Pos())
+								}
+							}
+							if oc, ok := o.(*ssa.Call); ok {
+								if cal := oc.Call.StaticCallee(); cal != nil && cal.Signature.Recv() != nil && core.NamedOf(cal.Signature.Recv().Type()) == nt && len(oc.Call.Args) > 0 && oc.Call.Args[0] == recv {
+									if _, isSlice := oc.Type().Underlying().(*types.Slice); isSlice && keepsResult(cal) {
+										bad = "writes an element of the slice that " + cal.Name() + " keeps in the receiver, at " + p.Pos(st.Pos())
+									}
+								}
+							}
+						}
+					}
+				}
+			}
+			c.Check(bad == "", "object."+name+"."+m.Name()+"|does-not-write-the-value", p.Pos(sf.Pos()),
+				name+"."+m.Name()+ife(bad == "", " does not write the value it is called on", " "+bad+": the value is shared by everything that holds it, and what its other operations return changes"))
+		}
+	}
+	if n < 50 {
+		core.Undecidedf("only %d methods of the immutable value types found", n)
+	}
+	c.Stat("immutable_value_methods", n)
+}
+
+func fieldNameOf(nt *types.Named, i int) string {
+	if st, ok := nt.Underlying().(*types.Struct); ok && i < st.NumFields() {
+		return st.Field(i).Name()
+	}
+	return "?"
+}
+
+// keepsResult: f returns a slice that it also stores in (or loads from) a field of its receiver.
+func keepsResult(f *ssa.Function) bool {
+	if f.Blocks == nil || len(f.Params) == 0 {
+		return false
+	}
+	recv := ssa.Value(f.Params[0])
+	for _, b := range f.Blocks {
+		for _, in := range b.Instrs {
+			if r, ok := in.(*ssa.Return); ok && len(r.Results) > 0 {
+				for _, o := range core.Origins(spilledResult(b, r.Results[0])) {
+					if u, ok := o.(*ssa.UnOp); ok {
+						if fa, ok := u.X.(*ssa.FieldAddr); ok && fa.X == recv {
+							return true
+						}
+					}
+				}
+			}
+		}
+	}
+	return false
 }
